@@ -47,7 +47,7 @@ def np_array(kind, toks):
     with a negative stride) - results must not depend on it and the caller's array must never be written to."""
     a = _np_array(kind, toks)
     form = os.environ.get("MC_ARRAY_FORM")
-    if not form or form == "pylist":
+    if not form or form == "pylist" or form in PROVENANCE:
         return a
     if form == "readonly":
         a.flags.writeable = False
@@ -104,8 +104,63 @@ def _np_array(kind, toks):
     raise ValueError(kind)
 
 
+# PROVENANCE forms: the same values, but the object handed to the operation under test is itself the PRODUCT of
+# another public operation (a concatenation, a fancy-indexed selection, a deep copy, an Arrow round trip) instead of
+# coming straight from the constructor. Used only when the product has the same dtypes and cells as the original
+# (whether those operations are right is the business of C09 / C02 / C06 / C13); otherwise the original is used.
+PROVENANCE = ("viarbind", "viaslice", "viadeepcopy", "viaarrow")
+
+
+def _same_frame(a, b):
+    if a.colnames != b.colnames or a.nrow != b.nrow:
+        return False
+    for name in a.colnames:
+        x, y = dict.__getitem__(a, name), dict.__getitem__(b, name)
+        if x.dtype != y.dtype or col_key(x) != col_key(y):
+            return False
+    return True
+
+
+def frame_via(d, form):
+    n = d.nrow
+    try:
+        if form == "viarbind":
+            out = d.head(n // 2).rbind(d.tail(n - n // 2))
+        elif form == "viaslice":
+            out = d.slice(np.arange(n))
+        elif form == "viadeepcopy":
+            out = d.deepcopy()
+        elif form == "viaarrow":
+            out = DataFrame.from_arrow(d.to_arrow())
+        else:
+            raise ValueError(form)
+    except ValueError:
+        raise
+    except Exception:
+        return d
+    return out if _same_frame(d, out) else d
+
+
+def vector_via(v, form):
+    n = len(v)
+    try:
+        if form == "viarbind":
+            out = v.head(n // 2).concat(v.tail(n - n // 2))
+        elif form == "viaslice":
+            out = v[np.arange(n)]
+        elif form == "viadeepcopy":
+            out = v.copy()
+        else:
+            return v
+    except Exception:
+        return v
+    return out if (out.dtype == v.dtype and col_key(out) == col_key(v)) else v
+
+
 def vector(kind, toks):
-    return Vector(np_array(kind, toks))
+    v = Vector(np_array(kind, toks))
+    form = os.environ.get("MC_ARRAY_FORM")
+    return vector_via(v, form) if form in PROVENANCE else v
 
 
 def py_list(kind, toks):
@@ -138,7 +193,9 @@ def frame(cols):
             if dict.__getitem__(d, name).dtype != want:
                 raise RuntimeError(f"harness: list form of a {kind} column was given dtype {dict.__getitem__(d, name).dtype}, not {want}")
         return d
-    return DataFrame({name: np_array(kind, toks) for name, kind, toks in cols})
+    d = DataFrame({name: np_array(kind, toks) for name, kind, toks in cols})
+    form = os.environ.get("MC_ARRAY_FORM")
+    return frame_via(d, form) if form in PROVENANCE else d
 
 
 # ---------------------------------------------------------------------------
